@@ -319,6 +319,23 @@ def r5_r6(tree, prog, rep):
     gm = R.methods.get("got_message")
     if gm is None:
         raise AnalysisError("Receive.got_message not found")
+    # every other place in Receive that decrypts (a loop over held messages, ..) obeys the same discipline
+    for oname, ofn in list(R.outputs.items()) + list(R.methods.items()):
+        if ofn is gm or not any(isinstance(c, ast.Call) and dotted(c.func) == "decrypt_data" for c in ast.walk(ofn)):
+            continue
+        g2 = build(ofn)
+        good2 = g2.call_nodes(lambda c: dotted(c.func) == "self.got_message_good")
+        bad2 = g2.call_nodes(lambda c: dotted(c.func) == "self.got_message_bad")
+        hs2 = [n for n in g2.nodes(lambda s: isinstance(s, ast.ExceptHandler))]
+        dec2 = g2.call_nodes(lambda c: dotted(c.func) == "decrypt_data")
+        ok2 = bool(bad2) and bool(hs2) and not g2.precedes(dec2, good2)
+        for h in hs2:
+            ok2 = ok2 and not (g2.reach_feasible(h) & set(good2))
+            # from the handler, the next decryption / the exit is reached only through got_message_bad
+            ok2 = ok2 and not ((set(dec2) | {g2.exit}) & g2.reach_feasible(h, avoid_nodes=bad2, explicit_only=True))
+        rep.check("C01.R6", "Receive.%s also decrypts: an undecryptable message is reported as bad there too, never skipped" % oname, ok2,
+                  site(ofn, R.file), key="C01.R6:Receive.%s:decrypts" % oname,
+                  what="Receive.%s silently drops (or delivers) a message that does not decrypt: a wrong code is not reported as WrongPasswordError" % oname)
     g = build(gm)
     good_n = g.call_nodes(lambda c: dotted(c.func) == "self.got_message_good")
     bad_n = g.call_nodes(lambda c: dotted(c.func) == "self.got_message_bad")
